@@ -377,7 +377,71 @@ def build() -> Check:
           "strings are written with json.dumps(ensure_ascii=True) and read with json.loads and nothing looks at surrogates: the two-character string '\\ud83d\\ude00' is accepted "
           "and comes back as the one-character string '\\U0001f600' (two distinct dict keys collapse into one)")
     _round_h2_rules(ck, sd)
+    _same_settings_both_ways(ck, sd)
     return ck
+
+
+def _same_settings_both_ways(ck, sd):
+    """R15 (r8_C15): what the encoder accepts the decoder must be able to read, so both run their conversions under the same interpreter settings. A
+    `with <setting>():` block (an int-digit limit lifted, a decimal context, a recursion limit) that encloses a conversion on one side and not EVERY
+    conversion on the other widens one direction only: the value is accepted, recorded, and every replay fails on it. The text <-> int conversion of the
+    decoder happens in json.loads, not where `int(value)` is written."""
+    ets = sd.classes["ExtendedTypeSerDes"]
+    SETTERS = ("set_", "setcontext", "setrecursionlimit", "setlocale", "localcontext")
+
+    def changes_settings(expr) -> bool:
+        # a context manager counts when it is (a call of) a function of this module whose body calls an interpreter-setting function, or such a call itself
+        # (decimal.localcontext()); a lock, a tracing span, contextlib.nullcontext() change nothing a conversion depends on
+        if not isinstance(expr, ast.Call):
+            return False
+        last = ast.unparse(expr.func).split(".")[-1]
+        if last.startswith(SETTERS):
+            return True
+        fn = sd.functions.get(last) if hasattr(sd, "functions") else None
+        if fn is None:
+            for f_ in ast.walk(sd.tree):
+                if isinstance(f_, ast.FunctionDef) and f_.name == last:
+                    fn = f_
+                    break
+        node = getattr(fn, "node", fn)
+        if node is None:
+            return False
+        return any(isinstance(c, ast.Call) and ast.unparse(c.func).split(".")[-1].startswith(SETTERS) for c in ast.walk(node))
+    sides = {}
+    for side, mname, conv in (("encoder", "serialize", ("dumps", "encode")), ("decoder", "deserialize", ("loads", "decode"))):
+        fi = ets.methods.get(mname)
+        if fi is None:
+            raise AnalysisError(f"ExtendedTypeSerDes.{mname} not found")
+        par = {}
+        for n in ast.walk(fi.node):
+            for c in ast.iter_child_nodes(n):
+                par[id(c)] = n
+        sites = []
+        for c in ast.walk(fi.node):
+            if isinstance(c, ast.Call) and isinstance(c.func, ast.Attribute) and c.func.attr in conv:
+                ctxs, cur = set(), par.get(id(c))
+                while cur is not None:
+                    if isinstance(cur, ast.With) and any(c is x for b in cur.body for x in ast.walk(b)):
+                        ctxs |= {ast.unparse(i.context_expr) for i in cur.items if changes_settings(i.context_expr)}
+                    cur = par.get(id(cur))
+                sites.append((c, ctxs))
+        # settings changed by plain calls (sys.set*, decimal.setcontext, ...) anywhere in the method count as enclosing everything after them: not modelled,
+        # so refuse to judge a method that contains one
+        setters = [ast.unparse(c.func) for c in ast.walk(fi.node) if isinstance(c, ast.Call) and ast.unparse(c.func).split(".")[-1].startswith(("set_", "setcontext", "setrecursionlimit", "setlocale"))]
+        if setters:
+            raise AnalysisError(f"ExtendedTypeSerDes.{mname} changes an interpreter setting with a plain call ({setters[0]}): not modelled")
+        sides[side] = (fi, sites)
+    n_sites = sum(len(v[1]) for v in sides.values())
+    ck.floor("serdes_conversion_sites", n_sites, 5)
+    for a_, b_ in (("encoder", "decoder"), ("decoder", "encoder")):
+        fa, sa_ = sides[a_]
+        fb, sb_ = sides[b_]
+        some = set().union(*(cx for _c, cx in sa_)) if sa_ else set()
+        lacking = sorted((ctx, f"line {c.lineno}: {ast.unparse(c.func)}") for ctx in some for c, cx in sb_ if ctx not in cx)
+        ck.ob("R15.same-interpreter-settings-both-ways", fn_construct(fb), not lacking,
+              (f"the {a_} converts under `with {lacking[0][0]}` but the {b_}'s {lacking[0][1]}(...) runs outside it: what one direction is able to convert under the changed "
+               f"setting the other cannot - a value is accepted and recorded and cannot be read back (or the reverse)") if lacking else f"{len(sa_)} / {len(sb_)} conversion sites, settings {sorted(some) or 'none'}",
+              cell=a_)
 
 
 def _round_h2_rules(ck, sd):
